@@ -79,13 +79,12 @@ VARIABLES cfg,      \* QoS of the service of the current run
           out,      \* observable result of the last call
           slog, regAt, rcvd, evicted,  \* ghost history (property layer)
           xlost,    \* ghost: expired connections sacrificed because the expired-connection buffer was full
-          gk,       \* ghost: precondition of the known-defect shape "stale-connection-key" (see GkAfterUpd)
           kd        \* tags of KNOWN-DEFECT shapes an execution went through (see AllowKnown)
 
 sysvars   == <<cfg, pst, pn, pdeg, pdirty, segb, sst, sbuf, sreq, sdeg, sdirty, conn, occ, hist, loans, ck, nextid, snd>>
-ghostvars == <<slog, regAt, rcvd, evicted, xlost, gk, kd>>
+ghostvars == <<slog, regAt, rcvd, evicted, xlost, kd>>
 vars      == <<cfg, pst, pn, pdeg, pdirty, segb, sst, sbuf, sreq, sdeg, sdirty, conn, occ, hist, loans, ck, nextid, snd,
-               out, slog, regAt, rcvd, evicted, xlost, gk, kd>>
+               out, slog, regAt, rcvd, evicted, xlost, kd>>
 
 Pairs == PubIds \X SubIds
 
@@ -170,18 +169,6 @@ Idle == ~snd.on
 \* (model checking only) concurrently to a send
 NestOK == ~snd.on \/ snd.ph = "call" \/ ConcurrentSub
 
-\* Known-defect shape "stale-connection-key" (C01, confirmed on the real code, known_findings.json):
-\* Receiver::update_connection keeps the slot-map key of the PREVIOUS connection of a registry slot when the
-\* attach to the slot's new publisher fails; the key is handed out again and a later update removes the
-\* healthy connection that now owns it.  Precondition, tracked here as ghost state: a publisher the
-\* subscriber was attached to is dropped (gone), a new publisher is created before the subscriber's next
-\* update (born = the subscribers for which it may take over such a slot), and the subscriber's attach to
-\* that new publisher fails (stale).  From then on the subscriber's connection table is corrupted; the
-\* trace specification may give up the rest of such a run (PubSubTrace SkipRun, tagged in kd).
-GkInit == [gone |-> TLCEval([s \in SubIds |-> FALSE]), born |-> TLCEval([p \in PubIds |-> {}]),
-           stale |-> TLCEval([s \in SubIds |-> FALSE])]
-KD_StaleKey == "stale-connection-key"
-
 -----------------------------------------------------------------------------
 \* initial state / reset
 InitWith(q) ==
@@ -209,7 +196,6 @@ InitWith(q) ==
     /\ rcvd = TLCEval([x \in Pairs |-> <<>>])
     /\ evicted = TLCEval([x \in Pairs |-> {}])
     /\ xlost = {}
-    /\ gk = GkInit
     /\ kd = {}
 
 Reset(q) ==
@@ -237,7 +223,6 @@ Reset(q) ==
     /\ rcvd' = TLCEval([x \in Pairs |-> <<>>])
     /\ evicted' = TLCEval([x \in Pairs |-> {}])
     /\ xlost' = {}
-    /\ gk' = GkInit
     /\ kd' = {}
 
 \* every live port of the other kind notices a registry change at its next update
@@ -281,9 +266,6 @@ DUpdate(p, reclaim, x) ==
 \* connection from which samples are still held is never dropped.
 SegFaulty(s) == IF sdirty[s] THEN {p \in LiveP : segb[p] /\ ~C(p, s).sa} ELSE {}
 SubFails(s) == sdeg[s] = "fail" /\ SegFaulty(s) # {}
-GkAfterUpd(s) ==
-    IF ~sdirty[s] THEN gk
-    ELSE [gk EXCEPT !.gone[s] = FALSE, !.stale[s] = @ \/ (\E f \in SegFaulty(s) : s \in gk.born[f])]
 ExpAll(s) == {p \in PubIds : pst[p] = "dead" /\ conn[<<p, s>>] # EmptyConn}
 WithBorrows(s) == {p \in ExpAll(s) : C(p, s).bor # {}}
 ExpCap == Max2(cfg.expbuf, cfg.borrow)
@@ -319,9 +301,7 @@ CreatePublisher(p, n, d) ==
             /\ conn' = TLCEval([x \in Pairs |-> IF x[1] = p /\ Registered(x[2])
                                          THEN [conn[x] EXCEPT !.pa = TRUE] ELSE conn[x]])
             /\ out' = [a |-> "create_pub", p |-> p, deg |-> d, r |-> "ok"]
-            /\ gk' = [gk EXCEPT !.born[p] = {s \in SubIds : gk.gone[s]}]
-            /\ UNCHANGED <<cfg, segb, sst, sbuf, sreq, sdeg, occ, hist, loans, ck, nextid, snd,
-                           slog, regAt, rcvd, evicted, xlost, kd>>
+            /\ UNCHANGED <<cfg, segb, sst, sbuf, sreq, sdeg, occ, hist, loans, ck, nextid, snd, ghostvars>>
 
 \* precondition: every loan was returned before (the driver drops them first)
 \* The sender sides go away; a connection that still holds data or borrows survives on the subscriber side
@@ -350,7 +330,6 @@ DropPublisher(p) ==
     /\ hist' = [hist EXCEPT ![p] = <<>>]
     /\ ck' = [ck EXCEPT ![p] = EmptyMap]
     /\ out' = [a |-> "drop_pub", p |-> p]
-    /\ gk' = [gk EXCEPT !.gone = TLCEval([s \in SubIds |-> gk.gone[s] \/ (sst[s] = "live" /\ C(p, s).sa)])]
     /\ UNCHANGED <<cfg, pn, pdeg, pdirty, segb, sst, sbuf, sreq, sdeg, occ, loans, nextid, snd,
                    slog, regAt, rcvd, evicted, xlost>>
 
@@ -380,7 +359,7 @@ CreateSubscriber(s, b, r, d) ==
                                          THEN [conn[x] EXCEPT !.sa = TRUE] ELSE conn[x]])
             /\ regAt' = TLCEval([x \in Pairs |-> IF x[2] = s THEN Len(slog[x[1]]) ELSE regAt[x]])
             /\ out' = [a |-> "create_sub", s |-> s, buf |-> b, req |-> r, deg |-> d, r |-> "ok"]
-            /\ UNCHANGED <<cfg, pst, pn, pdeg, segb, occ, hist, loans, ck, nextid, snd, slog, rcvd, evicted, xlost, gk, kd>>
+            /\ UNCHANGED <<cfg, pst, pn, pdeg, segb, occ, hist, loans, ck, nextid, snd, slog, rcvd, evicted, xlost, kd>>
 
 \* Samples may still be alive (they keep the receiver alive); the publisher reclaims everything
 \* the vanished subscriber owned at its next connection update.
@@ -533,7 +512,7 @@ Send(p, id) ==
                                                   n |-> IF res = "ok" THEN Card(acc) ELSE -1])]
        /\ evicted' = TLCEval([x \in Pairs |-> IF x[1] = p /\ x[2] \in T /\ Ev(x[2]) # 0
                                        THEN evicted[x] \cup {Ev(x[2])} ELSE evicted[x]])
-    /\ UNCHANGED <<cfg, pst, pn, pdeg, segb, sst, sbuf, sreq, sdeg, sdirty, occ, nextid, snd, regAt, rcvd, xlost, gk, kd>>
+    /\ UNCHANGED <<cfg, pst, pn, pdeg, segb, sst, sbuf, sreq, sdeg, sdirty, occ, nextid, snd, regAt, rcvd, xlost, kd>>
 
 \* ---- SampleMut::send, split: one action per critical section ----
 \* SendBegin  update_connections (+ history replay to new connections), add_sample_to_history,
@@ -591,7 +570,7 @@ Deliver(s) ==
             /\ Rej(s, FALSE)
     /\ out' = [a |-> "deliver", s |-> s]
     /\ UNCHANGED <<cfg, pst, pn, pdeg, pdirty, segb, sst, sbuf, sreq, sdeg, sdirty, occ, hist, loans, nextid,
-                   slog, regAt, rcvd, xlost, gk, kd>>
+                   slog, regAt, rcvd, xlost, kd>>
 
 BpCall(s) ==
     /\ snd.on /\ ~snd.err
@@ -614,7 +593,7 @@ BpRet(act) ==
          [] OTHER -> FALSE
     /\ out' = [a |-> "bp_ret", act |-> act]
     /\ UNCHANGED <<cfg, pst, pn, pdeg, pdirty, segb, sst, sbuf, sreq, sdeg, sdirty, occ, hist, loans, nextid,
-                   slog, regAt, rcvd, xlost, gk, kd>>
+                   slog, regAt, rcvd, xlost, kd>>
 
 SendEnd ==
     /\ snd.on /\ snd.pend = {} /\ snd.ph = "idle"
@@ -630,7 +609,7 @@ SendEnd ==
                   blk |-> Card(snd.blk)]
     /\ snd' = NoSend
     /\ UNCHANGED <<cfg, pst, pn, pdeg, pdirty, segb, sst, sbuf, sreq, sdeg, sdirty, conn, occ, hist, nextid,
-                   regAt, rcvd, evicted, xlost, gk, kd>>
+                   regAt, rcvd, evicted, xlost, kd>>
 
 \* connections of s from which a receive is possible after its connection update (cn)
 WithData(cn, s) == {p \in PubIds : cn[<<p, s>>].sa /\ cn[<<p, s>>].sq # <<>>}
@@ -664,7 +643,6 @@ Receive(s, p) ==
                /\ out' = [a |-> "recv", s |-> s, r |-> IF WithData(cn, s) # {} THEN "ExceedsMaxBorrows" ELSE "none",
                           p |-> 0, id |-> 0]
     /\ sdirty' = [sdirty EXCEPT ![s] = FALSE]
-    /\ gk' = GkAfterUpd(s)
     /\ UNCHANGED <<cfg, pst, pn, pdeg, pdirty, segb, sst, sbuf, sreq, sdeg, occ, hist, loans, ck, nextid, snd,
                    slog, regAt, evicted>>
 
@@ -692,7 +670,6 @@ UpdateSub(s) ==
        /\ conn' = SubUpd(s, K)
        /\ xlost' = xlost \cup Sacrificed(s, K)
     /\ sdirty' = [sdirty EXCEPT ![s] = FALSE]
-    /\ gk' = GkAfterUpd(s)
     /\ out' = [a |-> "update_sub", s |-> s, r |-> IF SubFails(s) THEN "ConnectionFailure" ELSE "ok"]
     /\ UNCHANGED <<cfg, pst, pn, pdeg, pdirty, segb, sst, sbuf, sreq, sdeg, occ, hist, loans, ck, nextid, snd,
                    slog, regAt, rcvd, evicted, kd>>
@@ -704,7 +681,7 @@ PanicExpiredBorrows(s) ==
     /\ Card(WithBorrows(s)) > ExpCap
     /\ kd' = kd \cup {KD_ExpiredPanic}
     /\ out' = [a |-> "panic", s |-> s]
-    /\ UNCHANGED <<sysvars, slog, regAt, rcvd, evicted, xlost, gk>>
+    /\ UNCHANGED <<sysvars, slog, regAt, rcvd, evicted, xlost>>
 
 HasSamples(s) ==
     /\ NestOK
@@ -716,7 +693,6 @@ HasSamples(s) ==
        /\ out' = IF SubFails(s) THEN [a |-> "has", s |-> s, r |-> "ConnectionFailure", v |-> 0]
                  ELSE [a |-> "has", s |-> s, r |-> "ok", v |-> B(WithData(cn, s) # {})]
     /\ sdirty' = [sdirty EXCEPT ![s] = FALSE]
-    /\ gk' = GkAfterUpd(s)
     /\ UNCHANGED <<cfg, pst, pn, pdeg, pdirty, segb, sst, sbuf, sreq, sdeg, occ, hist, loans, ck, nextid, snd,
                    slog, regAt, rcvd, evicted, kd>>
 
